@@ -78,13 +78,14 @@ pub fn c06(rep: &mut Rep) {
                             let s: f32 = a1.iter().map(|(_, v)| v[i]).sum();
                             let out_i: f32 = q.iter().map(|(_, v)| v[i].abs()).sum();
                             if !eq(s, aux[i]) {
-                                if srvs.len() > 1 && out_i == 0.0 && aux[i] > 0.0 {
+                                // known finding D8 is precisely "nothing assigned" at such a step; any other value there (NaN included) is a new failure
+                                if srvs.len() > 1 && out_i == 0.0 && aux[i] > 0.0 && s == 0.0 {
                                     rep.fail("C06.step_zero_output", &text, format!("step {}: auxiliary energy {} declared but {} assigned (the system has no output at that step)", i, aux[i], s));
                                 } else {
                                     rep.fail("C06.conserved", &text, format!("step {}: auxiliary energy {} declared but {} assigned", i, aux[i], s));
                                 }
                             }
-                            if a1.iter().any(|(_, v)| v[i] < -1e-6) { rep.fail("C06.share_nonneg", &text, format!("step {}: negative auxiliary share", i)); }
+                            if a1.iter().any(|(_, v)| !(v[i] >= -1e-6)) { rep.fail("C06.share_nonneg", &text, format!("step {}: negative auxiliary share", i)); }
                         }
                         if srvs.len() == 1 {
                             let want: Service = srvs[0].parse().unwrap();
@@ -582,6 +583,8 @@ pub fn c10(rep: &mut Rep, seed: u64) {
         // one service's output declared in several lines
         "1,CONSUMO,CAL,ELECTRICIDAD,100,50\n1,CONSUMO,ACS,ELECTRICIDAD,20,20\n1,SALIDA,CAL,450,200\n1,SALIDA,ACS,80,80\n1,SALIDA,CAL,150,100\n1,AUX,40,20",
         "1,CONSUMO,ACS,ELECTRICIDAD,100\n1,CONSUMO,ACS,EAMBIENTE,150\n2,CONSUMO,ACS,TERMOSOLAR,60",
+        // a multi-service system whose auxiliary energy is zero next to systems that have some (ids chosen to spread over a hash set)
+        "1,CONSUMO,CAL,GASNATURAL,100,50\n1,CONSUMO,ACS,GASNATURAL,20,20\n1,SALIDA,CAL,90,45\n1,SALIDA,ACS,18,18\n1,AUX,0,0\n2,CONSUMO,CAL,GASNATURAL,10,10\n2,CONSUMO,ACS,GASNATURAL,5,5\n2,SALIDA,CAL,9,9\n2,SALIDA,ACS,4,4\n2,AUX,3,3\n3,CONSUMO,REF,ELECTRICIDAD,8,8\n3,CONSUMO,VEN,ELECTRICIDAD,2,2\n3,SALIDA,REF,-20,-20\n3,SALIDA,VEN,1,1\n3,AUX,2,1\n17,CONSUMO,CAL,GASOLEO,30,30\n17,CONSUMO,ACS,GASOLEO,3,3\n17,SALIDA,CAL,25,25\n17,SALIDA,ACS,2,2\n17,AUX,1,1",
     ];
     // every figure of the serialized result (per-step series included), by path
     let all = |t: &str| -> Option<crate::leaf::Leaves> {
@@ -670,6 +673,9 @@ pub fn c16(rep: &mut Rep, seed: u64) {
         "DEMANDA,ACS,100\n1,CONSUMO,ACS,BIOMASA,80\n1,CONSUMO,ACS,GASNATURAL,40\n1,CONSUMO,ACS,TERMOSOLAR,10",
         "DEMANDA,ACS,100\n1,CONSUMO,ACS,BIOMASA,80\n1,CONSUMO,ACS,GASNATURAL,40\n1,CONSUMO,ACS,EAMBIENTE,10\n2,SALIDA,ACS,20",
         "DEMANDA,ACS,0\n1,CONSUMO,ACS,ELECTRICIDAD,10", "DEMANDA,ACS,50,50\nDEMANDA,ACS,1\n1,CONSUMO,ACS,GASNATURAL,1,1", "DEMANDA,VEN,5\n1,CONSUMO,ACS,GASNATURAL,1",
+        // different lengths in lines that the normalization combines (ambient use / production of one system; outputs / auxiliaries of a multi-service system)
+        "1,CONSUMO,CAL,EAMBIENTE,1,2,3\n1,PRODUCCION,EAMBIENTE,1,2", "1,CONSUMO,ACS,TERMOSOLAR,1,2\n1,PRODUCCION,TERMOSOLAR,1,2,3\n2,CONSUMO,ILU,ELECTRICIDAD,1,1",
+        "1,CONSUMO,CAL,ELECTRICIDAD,1,2\n1,CONSUMO,ACS,ELECTRICIDAD,1,2\n1,SALIDA,CAL,3,3,3\n1,SALIDA,ACS,1,1\n1,AUX,1,1", "1,CONSUMO,CAL,ELECTRICIDAD,1,2\n1,CONSUMO,ACS,ELECTRICIDAD,1,2\n1,SALIDA,CAL,3,3\n1,SALIDA,ACS,1,1\n1,AUX,1,1,1",
         // only outputs / only production / empty / different lengths / odd numbers
         "1,SALIDA,CAL,30", "1,PRODUCCION,EL_COGEN,10", "", "#META CTE_AREAREF: x", "1,CONSUMO,CAL,GASNATURAL,1,2\n1,CONSUMO,ACS,GASNATURAL,1", "1,CONSUMO,CAL,GASNATURAL,NaN,inf,-1e40,1e39",
         "CONSUMO,CAL", ",,,,", "1,CONSUMO,CAL,GASNATURAL", "ñ,CONSUMO,CAL,GASNATURAL,1", "1,CONSUMO,CAL,ELECTRICIDAD,1 # com # ment\n\u{feff}",
